@@ -32,6 +32,7 @@ func TestCheck(t *testing.T) {
 		"inside the handler (a gate the harness controls) while fresh connections B and C send ordinary queries; " +
 		"TCP and DoT frames are also written in pieces cut after the first prefix octet, after the prefix, inside the header and one byte before the end; " +
 		"(8) servers whose handler is the production chain of dnssvc with a scripted upstream: every EDNS form (incl. raw malformed ECS) x 9 query classes x upstream answer / NXDOMAIN / failure, judged without a reference handler: exactly one response, ID and question byte-equal, transports agree; " +
+		"(9) 10 300 queries held inside the handler of one plain-DNS server at once, an ordinary TCP query meanwhile, liveness probes on UDP and TCP afterwards; " +
 		"(6) 160 sequential queries per DoQ connection whose FIN follows the query in a later packet; " +
 		"(7) datagrams of 513..4000 bytes (padded valid queries, valid queries followed by filler, garbage) over plain UDP, " +
 		"judged by their first 512 bytes. " +
@@ -192,6 +193,9 @@ func TestCheck(t *testing.T) {
 
 	// Phase 7: long-lived DoQ connections, FIN in a later packet.
 	e.doqLongLived()
+
+	// Phase 9: more than 10 000 handlers of one server busy at once.
+	e.poolBurst()
 
 	// Phase 8: the production handler chain behind every transport.
 	if !e.prodPhase() {
